@@ -1469,6 +1469,29 @@ func (a *fnAn) refine(st tstate, cond ssa.Value, truth bool, b *ssa.BasicBlock) 
 		if !truth {
 			op = negOp(op)
 		}
+		// x & M == 0 with M all ones above bit k (0xFFFFFF80, ^0x7F): x < 2^k, for unsigned x
+		if op == token.EQL {
+			if and, ok := c.X.(*ssa.BinOp); ok && and.Op == token.AND {
+				if z, ok := constIntVal(c.Y); ok && z == 0 {
+					for _, pr := range [][2]ssa.Value{{and.X, and.Y}, {and.Y, and.X}} {
+						m, isK := constIntVal(pr[1])
+						tb, sg := typeBits(pr[0].Type())
+						if !isK || sg || tb > 63 {
+							continue
+						}
+						low := (^m) & (int64(1)<<uint(tb) - 1)
+						if low&(low+1) != 0 {
+							continue // not of the form 2^k - 1
+						}
+						xv := a.eval(pr[0], st)
+						bound := AV{T: ivOf(low, low)}
+						if nx, ok := a.constrain(xv, token.LEQ, bound, nil); ok {
+							a.assign(st, pr[0], nx, b)
+						}
+					}
+				}
+			}
+		}
 		xa, ya := a.eval(c.X, st), a.eval(c.Y, st)
 		nx, okx := a.constrain(xa, op, ya, c.Y)
 		ny, oky := a.constrain(ya, flipOp(op), xa, c.X)
@@ -1761,6 +1784,18 @@ func (a *fnAn) instr(in ssa.Instruction, st tstate, collect bool) {
 				}
 				break
 			}
+			// *loc = append(x[:0], make([]T, n)...): as long as the made slice
+			if ap, ok := base.(*ssa.Call); ok {
+				if bi, isB := ap.Common().Value.(*ssa.Builtin); isB && bi.Name() == "append" && len(ap.Common().Args) == 2 {
+					if sl, ok := ap.Common().Args[0].(*ssa.Slice); ok && sl.Low == nil && sl.High != nil {
+						if k, ok := constIntVal(sl.High); ok && k == 0 {
+							if ms, ok := ap.Common().Args[1].(*ssa.MakeSlice); ok {
+								base = ms
+							}
+						}
+					}
+				}
+			}
 			if ms, ok := base.(*ssa.MakeSlice); ok && !elem {
 				if m, ok := st["M:v:"+ms.Name()]; ok {
 					st["M:"+key] = m
@@ -1993,6 +2028,25 @@ func (a *fnAn) errNonNil(v ssa.Value, st tstate) bool {
 	switch x := v.(type) {
 	case *ssa.Const:
 		return false
+	case *ssa.Phi:
+		// `err = errors.New(..)` in one clause, `return err` after the switch: non-nil when it is
+		// on every edge that has been feasible so far
+		if fe, ok := a.feas[x.Block()]; ok {
+			any := false
+			all := true
+			for i, e := range x.Edges {
+				if !fe[i] {
+					continue
+				}
+				any = true
+				if e == v || !a.errNonNil(e, st) {
+					all = false
+				}
+			}
+			if any && all {
+				return true
+			}
+		}
 	case *ssa.MakeInterface:
 		return true
 	case *ssa.Call:
@@ -2761,6 +2815,19 @@ func (a *fnAn) callSinks(in ssa.Instruction, cc *ssa.CallCommon, name string, st
 			if av, ok := st["L:"+last.Src]; ok && av.T != nil {
 				a.addSink(in, "inflate(declared)", av, true, "declared uncompressed size is bounded before inflating", "declared size "+av.String())
 			}
+		}
+	case "encoding/binary.(bigEndian).PutUint16", "encoding/binary.(bigEndian).Uint16", "encoding/binary.(littleEndian).PutUint16", "encoding/binary.(littleEndian).Uint16",
+		"encoding/binary.(bigEndian).PutUint32", "encoding/binary.(bigEndian).Uint32", "encoding/binary.(littleEndian).PutUint32", "encoding/binary.(littleEndian).Uint32",
+		"encoding/binary.(bigEndian).PutUint64", "encoding/binary.(bigEndian).Uint64", "encoding/binary.(littleEndian).PutUint64", "encoding/binary.(littleEndian).Uint64":
+		// the fixed-width accessors index their operand at width-1: a peer-sized buffer must be that long
+		if v := arg(1); v != nil {
+			w := int64(2)
+			if strings.HasSuffix(name, "32") {
+				w = 4
+			} else if strings.HasSuffix(name, "64") {
+				w = 8
+			}
+			a.constIntoPeerSized(in, v, bi(w), false, st)
 		}
 	case "bytes.(Buffer).Next", "bytes.(Buffer).Truncate":
 		// panics on a negative argument; required for every value, not only peer-derived ones
